@@ -1,13 +1,108 @@
+// vcheck is the single binary of the verification harness.
+//
+//	vcheck drive  <Cxx> <quick|thorough> [--replay path]   orchestrates a check (spawns workers)
+//	vcheck worker <Cxx> <tier> <seed> <from> <to> <prefix> runs cases in this process
+//	vcheck known  <Cxx> <id>                               re-executes a pinned known finding
+//	vcheck needs-race <Cxx> <tier>                         prints yes/no
+//	vcheck list
 package main
 
 import (
 	"fmt"
+	"os"
+	"path/filepath"
+	"strconv"
 
-	"github.com/google/jsonschema-go/jsonschema"
+	"verif/internal/fw"
+	"verif/internal/props"
 )
 
 func main() {
-	s := &jsonschema.Schema{Type: "string"}
-	rs, err := s.Resolve(nil)
-	fmt.Println(rs.Validate("x"), err)
+	if len(os.Args) < 2 {
+		fmt.Println("usage: vcheck drive|worker|known|needs-race|list ...")
+		os.Exit(2)
+	}
+	switch os.Args[1] {
+	case "list":
+		for _, id := range props.IDs() {
+			fmt.Println(id)
+		}
+	case "needs-race":
+		p := mustProp(os.Args[2])
+		if r, ok := p.(fw.Racer); ok && r.Race(fw.Tier(os.Args[3])) {
+			fmt.Println("yes")
+		} else {
+			fmt.Println("no")
+		}
+	case "worker":
+		p := mustProp(os.Args[2])
+		tier := fw.Tier(os.Args[3])
+		seed, _ := strconv.ParseUint(os.Args[4], 10, 64)
+		from, _ := strconv.Atoi(os.Args[5])
+		to, _ := strconv.Atoi(os.Args[6])
+		if err := fw.RunWorker(p, tier, seed, from, to, os.Args[7], os.Getenv("VERIF_REPLAY") != ""); err != nil {
+			fmt.Println("worker error:", err)
+			os.Exit(3)
+		}
+	case "known":
+		p := mustProp(os.Args[2])
+		kr, ok := p.(fw.KnownRunner)
+		if !ok {
+			fmt.Println("NO-RUNNER")
+			os.Exit(3)
+		}
+		still, detail, err := kr.RunKnown(os.Args[3])
+		if err != nil {
+			fmt.Println("ERROR", err)
+			os.Exit(3)
+		}
+		if still {
+			fmt.Println("STILL-FAILS", detail)
+		} else {
+			fmt.Println("NO-LONGER-FAILS", detail)
+		}
+	case "drive":
+		p := mustProp(os.Args[2])
+		o := fw.DriveOpts{Tier: fw.Tier(os.Args[3]), HooksOn: fw.HooksAvailable}
+		for i := 4; i < len(os.Args); i++ {
+			if os.Args[i] == "--replay" && i+1 < len(os.Args) {
+				o.Replay = os.Args[i+1]
+				i++
+			}
+		}
+		if o.Tier != fw.Quick && o.Tier != fw.Thorough {
+			fmt.Println("tier must be quick or thorough")
+			os.Exit(2)
+		}
+		o.Seed = 1
+		if s := os.Getenv("VERIF_SEED"); s != "" {
+			if n, err := strconv.ParseUint(s, 10, 64); err == nil {
+				o.Seed = n
+			}
+		}
+		exe, _ := os.Executable()
+		o.Exe = exe
+		o.RaceExe = os.Getenv("VERIF_RACE_EXE")
+		o.VerifDir = os.Getenv("VERIF_DIR")
+		if o.VerifDir == "" {
+			o.VerifDir = "/verif"
+		}
+		o.WorkDir = os.Getenv("VERIF_WORK")
+		if o.WorkDir == "" {
+			o.WorkDir = filepath.Join(filepath.Dir(exe), "work")
+		}
+		os.Exit(fw.Drive(p, o))
+	default:
+		fmt.Println("unknown command", os.Args[1])
+		os.Exit(2)
+	}
+}
+
+func mustProp(id string) fw.Property {
+	p := props.Get(id)
+	if p == nil {
+		fmt.Println("unknown property", id)
+		os.Exit(2)
+	}
+	return p
 }
